@@ -1963,9 +1963,9 @@ class Node:
                 elif conn.state in (PEER_CONNECTING, PEER_CONNECTED):
                     # has not completed its capabilities exchange: there is
                     # nobody to take leave of, and it must not be taken into
-                    # service while the node is stopping
-                    self.close_connection_socket(
-                        conn, DISCONNECT_REASON_NODE_SHUTDOWN)
+                    # service while the node is stopping. The socket is closed
+                    # by the node's own thread, which may be using it
+                    conn.close()
             abort_wait = False
             wait_until = time.time() + wait_timeout
             while len(self.connections) > 0 and not abort_wait:
